@@ -264,6 +264,40 @@ theorem discharge_effect (b : Bundle) (loc ka : Bytes) (cb : Bundle.Discharger) 
         ∀ d ∈ ds, d.isUnverified = true ∧ isPermAt loc d = true) :=
   Lemmas.BundleL.discharge_effect b loc ka cb rnds
 
+/-- **discharge_all_or_nothing.**  `Discharge(loc, ka, cb)` returns an error exactly when the work
+on SOME undischarged ticket of that location fails — the ticket does not open under `ka` (sealed
+under another key, garbage) or opens to garbage, the callback refuses it, `Add` refuses the caveats
+the callback returned, the discharge cannot be encoded — and then the token list is exactly what it
+was: discharges already staged for the other tickets of the same call are NOT appended (whether the
+failing ticket comes first, last or in between) -/
+theorem discharge_all_or_nothing (b : Bundle) (loc ka : Bytes) (cb : Bundle.Discharger) (rnds : List Bytes) :
+    ((b.discharge loc ka cb rnds).2 = true ↔
+      ∃ tr ∈ Bundle.withRnd (b.undischargedTicketsFor loc) rnds, Bundle.dischargeOne loc ka cb tr.1 tr.2 = none) ∧
+    ((b.discharge loc ka cb rnds).2 = true → (b.discharge loc ka cb rnds).1 = b) :=
+  dischargeWith_all_or_nothing .thatLocation b loc ka cb rnds
+
+/-- the ways one ticket can fail -/
+theorem discharge_ticket_failures (loc ka : Bytes) (cb : Bundle.Discharger) (ticket rnd : Bytes) :
+    (Crypto.openTicket ka ticket = TicketResult.cannotOpen → Bundle.dischargeOne loc ka cb ticket rnd = none) ∧
+    (Crypto.openTicket ka ticket = TicketResult.badPlaintext → Bundle.dischargeOne loc ka cb ticket rnd = none) ∧
+    (∀ dk tcavs, Crypto.openTicket ka ticket = TicketResult.ok dk tcavs → cb tcavs = none →
+      Bundle.dischargeOne loc ka cb ticket rnd = none) ∧
+    (∀ dk tcavs items, Crypto.openTicket ka ticket = TicketResult.ok dk tcavs → cb tcavs = some items →
+      (add (mint dk ticket loc rnd true) items).2 ≠ none → Bundle.dischargeOne loc ka cb ticket rnd = none) := by
+  refine ⟨?_, ?_, ?_, ?_⟩
+  · intro h; unfold Bundle.dischargeOne dischargeTicket; rw [h]
+  · intro h; unfold Bundle.dischargeOne dischargeTicket; rw [h]
+  · intro dk tcavs h hcb; unfold Bundle.dischargeOne dischargeTicket; rw [h]; simp only [hcb]
+  · intro dk tcavs items h hcb hadd
+    unfold Bundle.dischargeOne dischargeTicket
+    rw [h]
+    simp only [hcb]
+    cases hx : add (mint dk ticket loc rnd true) items with
+    | mk m' e =>
+      cases e with
+      | none => rw [hx] at hadd; exact absurd rfl hadd
+      | some e' => rfl
+
 /-- **F6, negative witness.**  The code as found walks the undischarged tickets of EVERY location with
 the one key it was given: whenever the bundle holds an undischarged ticket that this key does not
 open — e.g. the ticket of a second third party — the call fails, although the documented operation
@@ -450,6 +484,8 @@ end Macaroon.Props.C13
 #print axioms Macaroon.Props.C13.attenuated_3p_blocks_until_reverified
 #print axioms Macaroon.Props.C13.attenuate_writes_through
 #print axioms Macaroon.Props.C13.discharge_effect
+#print axioms Macaroon.Props.C13.discharge_all_or_nothing
+#print axioms Macaroon.Props.C13.discharge_ticket_failures
 #print axioms Macaroon.Props.C13.f6_discharge_violates_contract
 #print axioms Macaroon.Props.C13.clone_independent
 #print axioms Macaroon.Props.C13.flyio_locations_match
